@@ -31,6 +31,59 @@ ACQ_RE = re.compile(r"\.\s*(read|write|lock)\s*\(\s*\)\s*\.\s*await\b")
 SPAWN_RE = re.compile(r"\bspawn\s*\(\s*async\s+(?:move\s*)?\{")
 DROP_RE = re.compile(r"\bdrop\s*\(\s*([A-Za-z_]\w*)\s*\)")
 FN_RE = re.compile(r"\bfn\s+([A-Za-z_]\w*)")
+AWAIT_RE = re.compile(r"\.\s*await\b")
+SELECT_RE = re.compile(r"\bselect!\s*\{")
+
+
+def last_call_name(expr):
+    """name of the call the expression ends with (`a.b(c).d(e)` -> `d`), else None"""
+    e = expr.rstrip()
+    if e.endswith("?"):
+        e = e[:-1].rstrip()
+    if not e.endswith(")"):
+        return None
+    depth = 0
+    for j in range(len(e) - 1, -1, -1):
+        if e[j] == ")":
+            depth += 1
+        elif e[j] == "(":
+            depth -= 1
+            if depth == 0:
+                m = re.search(r"([A-Za-z_][\w:]*)\s*(?:::\s*<[^<>]*>\s*)?$", e[:j])
+                return m.group(1).split("::")[-1] if m else None
+    return None
+
+
+EXTERNAL_AWAITS = ("recv", "send", "sleep", "sleep_until", "yield_now", "timeout", "cancelled", "spawn", "spawn_blocking", "join_all")
+
+
+def classify_await(expr):
+    """(kind, bounded) of the expression whose value is awaited (text up to the `.await`)"""
+    name = last_call_name(expr) or ""
+    if name == "recv":
+        return "channelRecv", False
+    if name == "send":
+        return "channelSend", False
+    if name in ("sleep", "yield_now", "sleep_until"):
+        return "timer", True
+    if name == "timeout":
+        return "timer", True
+    if name == "cancelled":
+        return "cancel", False
+    if name in ("spawn", "spawn_blocking", "join_all"):
+        return "join", False
+    return "other", False
+
+
+def classify_select(body):
+    bounded = bool(re.search(r"\bsleep\s*\(", body))
+    if re.search(r"\breceiver\b", body):
+        return "clientResponse", bounded
+    if bounded:
+        return "timer", True
+    if re.search(r"\bcancelled\s*\(", body):
+        return "cancel", False
+    return "other", False
 
 
 def blank(src):
@@ -103,6 +156,7 @@ def strip_test_modules(s):
 class Fn:
     def __init__(self, name, file, body_start, body_end, src):
         self.name, self.file, self.a, self.b, self.src = name, file, body_start, body_end, src
+        self.awaits = []    # non-lock awaits: dict(line, kind, bounded, lex, in_spawn, root, after_spawn_of)
         self.sites = []     # dict(line, lock, mode, lex: set, in_spawn: bool)
         self.calls = []     # dict(callee, lex: set, in_spawn: bool, line)
         self.events = {}    # root key -> list of events ("acq", lock, mode, line) | ("rel", lock) | ("call", name)
@@ -172,7 +226,7 @@ def scan_fn(fn, acquiring, inner_ranges):
     """linear scan of one fn body. `acquiring` = names of fns known to acquire locks (for call sites).
     `inner_ranges` = bodies of nested fns to skip."""
     s = fn.src
-    fn.sites, fn.calls, fn.events = [], [], {}
+    fn.sites, fn.calls, fn.events, fn.awaits = [], [], {}, []
     call_re = re.compile(r"\b(" + "|".join(sorted(map(re.escape, acquiring))) + r")\s*\(") if acquiring else None
     spawn_opens = {m.end() - 1 for m in SPAWN_RE.finditer(s, fn.a, fn.b)}
     # scopes: dict(kind, guards: [guard], hidden: [guard], root: key)
@@ -217,6 +271,7 @@ def scan_fn(fn, acquiring, inner_ranges):
             if i in spawn_opens:
                 spawn_n += 1
                 key = f"{fn.name}@spawn{spawn_n}"
+                fn.events[cur_root()].append(("spawn", key))
                 fn.events[key] = []
                 scopes.append(dict(kind="spawn", guards=[], hidden=[], root=key, saved_temps=temps))
                 temps = []
@@ -268,6 +323,25 @@ def scan_fn(fn, acquiring, inner_ranges):
                 temps.append((g, len(scopes)))
             i = m.end()
             continue
+        m = AWAIT_RE.match(s, i) if c == "." else None
+        if m:
+            expr = s[max(fn.a, i - 800):i]   # only the call the expression ends with matters (matched backwards)
+            # an awaited call of a (possibly) lock/await-relevant fn of this crate is followed into the callee instead
+            callee = last_call_name(expr)
+            if not (callee in acquiring and callee not in EXTERNAL_AWAITS):
+                kind, bounded = classify_await(expr)
+                fn.awaits.append(dict(line=line_of(s, i), kind=kind, bounded=bounded, lex=sorted(set(held_now())),
+                                      in_spawn=in_spawn(), root=cur_root(), expr=" ".join(expr.split())[-60:]))
+            i = m.end()
+            continue
+        m = SELECT_RE.match(s, i) if s.startswith("select!", i) and not (s[i - 1].isalnum() or s[i - 1] == "_") else None
+        if m:
+            close = match_close(s, m.end() - 1)
+            kind, bounded = classify_select(s[m.end():close])
+            fn.awaits.append(dict(line=line_of(s, i), kind=kind, bounded=bounded, lex=sorted(set(held_now())),
+                                  in_spawn=in_spawn(), root=cur_root(), expr="select!"))
+            i = m.end() - 1   # continue into the macro body as a block
+            continue
         m = DROP_RE.match(s, i) if s.startswith("drop", i) and not (s[i - 1].isalnum() or s[i - 1] == "_") else None
         if m:
             var = m.group(1)
@@ -294,8 +368,12 @@ def scan_fn(fn, acquiring, inner_ranges):
             if m and not re.search(r"\bfn\s+$", s[max(0, i - 8):i]):
                 close = match_close(s, m.end() - 1, "(", ")")
                 if re.match(r"\s*\.\s*await\b", s[close + 1:close + 40]):
+                    args = s[m.end():close]
+                    bctx = "time_cancel_token(" in args or (
+                        re.search(r"\bcancel_token\b", args) is not None
+                        and re.search(r"let\s+cancel_token\s*=\s*time_cancel_token\s*\(", s[fn.a:i]) is not None)
                     fn.calls.append(dict(callee=m.group(1), lex=sorted(set(held_now())), in_spawn=in_spawn(),
-                                         line=line_of(s, i), root=cur_root()))
+                                         line=line_of(s, i), root=cur_root(), bounded_ctx=bctx))
                     fn.events[cur_root()].append(("call", m.group(1)))
                 i = m.end()
                 continue
@@ -310,13 +388,15 @@ def extract(repo):
     fns = collect_fns(repo)
     # nested fn bodies (skip when scanning the outer fn)
     inner = {id(f): [(g.a, g.b) for g in fns if g.file == f.file and g is not f and f.a < g.a and g.b < f.b] for f in fns}
+    # `acquiring` = fns whose own task acquires a lock or awaits something (directly or through awaited callees)
     acquiring = set()
     while True:
         for f in fns:
             scan_fn(f, acquiring, inner[id(f)])
         new = set(acquiring)
         for f in fns:
-            if any(not st["in_spawn"] for st in f.sites) or any(not c["in_spawn"] for c in f.calls):
+            if (any(not st["in_spawn"] for st in f.sites) or any(not c["in_spawn"] for c in f.calls)
+                    or any(not w["in_spawn"] for w in f.awaits)) and f.name not in EXTERNAL_AWAITS:
                 new.add(f.name)
         if new == acquiring:
             break
@@ -324,21 +404,29 @@ def extract(repo):
     by_name = {}
     for f in fns:
         by_name.setdefault(f.name, []).append(f)
-    # entry-held fixed point
-    entry = {f.name: set() for f in fns}
+    # entry-held fixed point, kept apart for call chains that pass a time-bounded cancellation token down
+    entry = {f.name: {False: set(), True: set()} for f in fns}
+    reached = {f.name: {False: False, True: False} for f in fns}
     changed = True
     while changed:
         changed = False
         for f in fns:
             for c in f.calls:
-                add = set(c["lex"]) | (set() if c["in_spawn"] else entry[f.name])
-                if not add <= entry[c["callee"]]:
-                    entry[c["callee"]] |= add
-                    changed = True
+                ctxs = [(False, set())] if c["in_spawn"] else [(b, entry[f.name][b]) for b in (False, True) if b is False or reached[f.name][True]]
+                for b, inherited in ctxs:
+                    tb = b or c["bounded_ctx"]
+                    add = set(c["lex"]) | inherited
+                    if not reached[c["callee"]][tb] and tb:
+                        reached[c["callee"]][tb] = True
+                        changed = True
+                    if not add <= entry[c["callee"]][tb]:
+                        entry[c["callee"]][tb] |= add
+                        changed = True
+    entry_all = {n: e[False] | e[True] for n, e in entry.items()}
     sites = []
     for f in fns:
         for st in f.sites:
-            may = set(st["lex"]) | (set() if st["in_spawn"] else entry[f.name])
+            may = set(st["lex"]) | (set() if st["in_spawn"] else entry_all[f.name])
             sites.append(dict(fn=st["root"], file=f.file, line=st["line"], lock=st["lock"], mode=st["mode"],
                               held=sorted(may, key=RANK.index)))
     sites.sort(key=lambda x: (x["file"], x["line"]))
@@ -355,15 +443,54 @@ def extract(repo):
             else:
                 out.append(e)
         return out
+
+    def locks_of(evs, stack):
+        return sorted({e[1] for e in inline(evs, stack) if e[0] == "acq"}, key=RANK.index)
     programs = []
     for f in fns:
         for key, evs in f.events.items():
-            p = inline(evs, [f.name])
+            p = [e for e in inline(evs, [f.name]) if e[0] in ("acq", "rel")]
             if any(e[0] == "acq" for e in p):
                 name = key if len(by_name.get(f.name, [])) == 1 else f"{os.path.basename(os.path.dirname(f.file))}::{key}"
                 programs.append(dict(name=name, file=f.file, acts=[list(e[:3]) for e in p]))
     programs.sort(key=lambda x: x["name"])
-    return dict(rank=RANK, sites=sites, programs=programs, entry_held={k: sorted(v) for k, v in entry.items() if v})
+
+    # non-lock awaits with their held sets; `needs` = locks the awaited party may still request
+    awaits, n_unheld = [], 0
+    for f in fns:
+        for w in f.awaits:
+            if w["kind"] == "channelRecv":
+                # drains a channel fed by the tasks this fn spawns: they may need whatever their blocks acquire
+                kids = [k for k in f.events if k.startswith(f.name + "@spawn")]
+                needs = sorted({l for k in kids for l in locks_of(f.events[k], [f.name])}, key=RANK.index) if kids else list(RANK)
+            elif w["kind"] == "channelSend" and w["in_spawn"]:
+                # waits for the receiver = the spawning fn, from the spawn on
+                parent = next((k for k, evs in f.events.items() if ("spawn", w["root"]) in evs), None)
+                if parent is None:
+                    needs = list(RANK)
+                else:
+                    evs = f.events[parent]
+                    needs = locks_of(evs[evs.index(("spawn", w["root"])) + 1:], [f.name])
+            elif w["kind"] == "timer":
+                needs = []
+            else:
+                needs = list(RANK)   # client / cancellation / unknown party: may need anything
+            ctxs = [(set(w["lex"]) | (set() if w["in_spawn"] else entry[f.name][False]), w["bounded"])]
+            if not w["in_spawn"] and reached[f.name][True]:
+                ctxs.append((set(w["lex"]) | entry[f.name][True], True))
+            for held, bounded in ctxs:
+                if not held:
+                    n_unheld += 1
+                    continue
+                awaits.append(dict(fn=w["root"], file=f.file, line=w["line"], kind=w["kind"], expr=w["expr"],
+                                   held=sorted(held, key=RANK.index), needs=needs, bounded=bool(bounded)))
+    awaits.sort(key=lambda x: (x["file"], x["line"], x["bounded"]))
+    return dict(rank=RANK, sites=sites, programs=programs, awaits=awaits, awaits_without_lock=n_unheld,
+                entry_held={k: sorted(v) for k, v in entry_all.items() if v})
+
+
+def await_allowed(a, rk):
+    return (not a["held"]) or a["bounded"] or all(rk[h] < rk[l] for l in a["needs"] for h in a["held"])
 
 
 def lean_str(s):
@@ -397,6 +524,14 @@ def to_lean(data):
                 acts.append(f".rel {rk[a[1]]}")
         rows.append("  (%s, [%s])" % (lean_str(p["name"]), ", ".join(acts)))
     L.append(",\n".join(rows) + "]")
+    L += ["", "/-- every `.await` / `select!` inside a guard scope that is not itself a lock acquisition -/",
+          "def lockAwaits : List AwaitSite := ["]
+    rows = []
+    for a in data["awaits"]:
+        rows.append("  { fn := %s, file := %s, line := %d, kind := .%s, held := [%s], needs := [%s], bounded := %s }" % (
+            lean_str(a["fn"]), lean_str(a["file"]), a["line"], a["kind"], ", ".join(str(rk[h]) for h in a["held"]),
+            ", ".join(str(rk[l]) for l in a["needs"]), "true" if a["bounded"] else "false"))
+    L.append(",\n".join(rows) + "]")
     L += ["", "end Gen", ""]
     return "\n".join(L)
 
@@ -412,8 +547,12 @@ def generate(root, repo, log):
     json.dump(data, open(os.path.join(root, ".work", "lock_sites.json"), "w"), indent=1)
     rk = {n: i for i, n in enumerate(data["rank"])}
     bad = [s for s in data["sites"] if any(rk[h] >= rk[s["lock"]] for h in s["held"])]
-    log.append(f"sched_locks: {len(data['sites'])} sites, {len(data['programs'])} programs, {len(bad)} out of order")
+    bad_aw = [a for a in data["awaits"] if not await_allowed(a, rk)]
+    log.append(f"sched_locks: {len(data['sites'])} sites, {len(data['programs'])} programs, {len(bad)} out of order; "
+               f"{len(data['awaits'])} awaits under a lock, {len(bad_aw)} not allowed")
     return {"lock_sites": len(data["sites"]), "lock_programs": len(data["programs"]),
+            "awaits_under_lock": len(data["awaits"]), "awaits_without_lock": data["awaits_without_lock"],
+            "awaits_not_allowed": [f"{a['file']}:{a['line']} {a['fn']} {a['kind']} `{a['expr']}` held={a['held']} needs={a['needs']}" for a in bad_aw],
             "sites_out_of_order": [f"{s['file']}:{s['line']} {s['fn']} {s['lock']}.{s['mode']} held={s['held']}" for s in bad],
             "rank": data["rank"]}
 
@@ -428,3 +567,7 @@ if __name__ == "__main__":
     for p in d["programs"]:
         print(p["name"], " ".join(f"{a[0]}:{a[1]}" + (f".{a[2]}" if a[0] == "acq" else "") for a in p["acts"]))
     print("entry-held:", d["entry_held"])
+    print("awaits without a lock held:", d["awaits_without_lock"])
+    for a in d["awaits"]:
+        print(f"AWAIT {a['file'].replace('crates/emmylua_ls/src/', '')}:{a['line']} [{a['fn']}] {a['kind']} `{a['expr']}` held={a['held']} needs={a['needs']} "
+              f"bounded={a['bounded']}" + ("" if await_allowed(a, rk) else "  <-- NOT ALLOWED"))
